@@ -24,6 +24,11 @@ func init() {
 	Registry["C12"] = Spec{
 		Pkgs: map[string][]string{"v2": {"resolve"}},
 		Run:  runC12,
+		Thorough: func(r *fw.Run) {
+			workspaceWhoMayCall(r, []wsCallRule{
+				{Rule: "C12-T1", What: "the lifecycle methods of a client's SubscriptionResponseWriter (Flush / Complete / Heartbeat / Error) are called only from package resolve, where the writer discipline is checked", Callees: []string{"resolve:SubscriptionResponseWriter.Flush", "resolve:SubscriptionResponseWriter.Complete", "resolve:SubscriptionResponseWriter.Heartbeat", "resolve:SubscriptionResponseWriter.Error"}, Allowed: []string{"resolve:"}, Why: "a client writer is driven from another package: nothing orders that call with the removal of the subscription or with the writes of package resolve (C12-R1 only sees package resolve) — writes after completion, overlapping writes", Expected: 10},
+			})
+		},
 		Explanation: "Decides the structural half of 'nothing is written after removal, writes never overlap, completion is signalled exactly once': " +
 			"a must-lock-set + guard analysis over every path of package resolve shows that each use of subscriptionState.writer happens with writeMu held and after removed.Load() was seen false in the same critical section; " +
 			"that the completed channel is closed at one site under writeMu, reached only through closeSubs, whose arguments are fed only by elements won through removed.CompareAndSwap(false,true); " +
